@@ -147,21 +147,35 @@ def fillRanges (fill : Fill) (amount : Nat) (lastOff : Nat) : List Range :=
   | .one => [⟨amount, .one⟩]
   | .zero => [⟨amount, .zero⟩]
 
-/-- `rightShiftRewireOp(width, amount, fill)` (`:33-77`).  `width - 1` for `fill::last` is computed in `size_t`. -/
-def rightShiftRewireOp (width amount : Nat) (fill : Fill) : List Range :=
+/-- first statement of both rewire-op builders (`SignalBitshiftOp.cpp:33-38, 86-91`, since `c4028c8`): a shift by more than the
+    width shifts everything out (`min(amount, width)`), a rotate is periodic in the width (`width ? amount % width : 0`) -/
+def normAmount (fill : Fill) (width amount : Nat) : Nat :=
+  if fill = .rotate then (if width = 0 then 0 else amount % width) else min amount width
+
+/-- the ranges of `rightShiftRewireOp` for a normalised amount (`:40-83`).  `width - 1` for `fill::last` is computed in `size_t`. -/
+def rightShiftRanges (width amount : Nat) (fill : Fill) : List Range :=
   (if amount < width then [⟨width - amount, .input 0 amount⟩] else []) ++
   (match fill with
    | .rotate => [⟨amount, .input 0 0⟩]
    | f => fillRanges f amount ((width + 2^64 - 1) % 2^64))
 
-/-- `leftShiftRewireOp(width, amount, fill)` (`:79-124`); `width - amount` is computed in `size_t` (wraps for `amount > width`) -/
-def leftShiftRewireOp (width amount : Nat) (fill : Fill) : List Range :=
+/-- the ranges of `leftShiftRewireOp` for a normalised amount (`:93-137`); `width - amount` is computed in `size_t` -/
+def leftShiftRanges (width amount : Nat) (fill : Fill) : List Range :=
   (match fill with
    | .rotate => [⟨amount, .input 0 ((width + 2^64 - amount % 2^64) % 2^64)⟩]
    | f => fillRanges f amount 0) ++
   (if amount < width then [⟨width - amount, .input 0 0⟩] else [])
 
-/-- `shift<T, direction>(operand, amount, fill)` (`:127-145`): one rewire node; its width is the sum of the ranges -/
+def shiftRangesCore (dir : Dir) (fill : Fill) (width amount : Nat) : List Range :=
+  match dir with
+  | .right => rightShiftRanges width amount fill
+  | .left => leftShiftRanges width amount fill
+
+/-- `rightShiftRewireOp(width, amount, fill)` / `leftShiftRewireOp(width, amount, fill)` -/
+def rightShiftRewireOp (width amount : Nat) (fill : Fill) : List Range := rightShiftRanges width (normAmount fill width amount) fill
+def leftShiftRewireOp (width amount : Nat) (fill : Fill) : List Range := leftShiftRanges width (normAmount fill width amount) fill
+
+/-- `shift<T, direction>(operand, amount, fill)` (`:140-158`): one rewire node; its width is the sum of the ranges -/
 def staticShiftRanges (dir : Dir) (fill : Fill) (width amount : Nat) : List Range :=
   match dir with
   | .right => rightShiftRewireOp width amount fill
@@ -171,6 +185,11 @@ def rangesWidth (rs : List Range) : Nat := (rs.map (·.subwidth)).sum
 
 def staticShift (dir : Dir) (fill : Fill) (a : BV4) (amount : Nat) : BV4 :=
   let rs := staticShiftRanges dir fill a.length amount
+  node (.rewire rs) (rangesWidth rs) [a]
+
+/-- the rewire node for an amount that is already normalised (and the lowering as it was before `c4028c8`) -/
+def staticShiftCore (dir : Dir) (fill : Fill) (a : BV4) (amount : Nat) : BV4 :=
+  let rs := shiftRangesCore dir fill a.length amount
   node (.rewire rs) (rangesWidth rs) [a]
 
 /-- `rot(signal, amount)` (`:211-235`): positive amounts rotate left, `0` and negative ones right -/
